@@ -94,6 +94,23 @@ def total_cases(rng, tier):
             ])
             ops += [f"env inject 0 {rng.randint(1, 5)} {fr}", "n update", "n update"]
         cs.append(("net 1 0 " + " ; ".join(ops), "master-with-leases"))
+    # a master whose slots are exhausted: an address request that cannot be served, then frames of every kind
+    # (nothing may be left pending that makes a later update() act on an unrelated / discarded frame)
+    for _ in range(8 if tier == "quick" else 100):
+        via = rng.choice([0o4444, 0o4444, 0o1, 0o21, 0o5])
+        base, lvl = (0, 0) if via == 0o4444 else (via, len(oct(via)) - 2)
+        slots = [base | (i << (3 * lvl)) for i in range(1, 6 if via == 0o4444 else 5)]
+        ids = rng.sample(range(1, 200), len(slots))
+        ops = ["new n master 0 0"] + [f"n setaddr {i} {a}" for i, a in zip(ids, slots)]
+        ops += [f"env inject 0 1 {_frame(via, 0, 7, 195, rng.randint(200, 250), b'')}", "n update", "n update"]
+        for _ in range(6):
+            fr = rng.choice([
+                _frame(rng.choice(INVALID_ADDRS), 0, rng.randrange(65536), rng.randrange(256), rng.randrange(256), b""),
+                _frame(0o2, rng.choice(INVALID_ADDRS), rng.randrange(65536), rng.randrange(256), rng.randrange(256), b""),
+                _frame(rng.choice([0o3, 0o4444]), 0, rng.randrange(65536), rng.choice([1, 100, 196, 198, 197]), rng.randrange(256), bytes(rng.randrange(256) for _ in range(rng.choice([0, 1, 2])))),
+            ])
+            ops += [f"env inject 0 {rng.randint(1, 5)} {fr}", "n update", "n update"]
+        cs.append(("net 1 0 " + " ; ".join(ops), "master-exhausted"))
     # a handled frame followed by a discarded one in the same update() (stale return value)
     for kind, arg in (("master", 0), ("mesh", 0), ("network", 0o5), ("master", 9)):
         addr = 0 if kind in ("master", "mesh") and arg == 0 else (0o4444 if kind in ("master", "mesh") else arg)
